@@ -310,4 +310,75 @@ theorem token_roundtrip (f : Field) (a : Nat) (q : Bool) (t n rest : B) (hg : go
       setType_prefixed (prefKey f a) (tokTypeOf f) hentry, tokTextOf_split]
     simp [C07.bind_ok]
 
+/-! ### the other tokens of a rendering: directives, `or`, `-`, parentheses -/
+
+theorem caseWord_dflt (fl : Nat) : ∀ c ∈ caseWord fl, isDflt c = true := by
+  unfold caseWord; split <;> decide
+
+theorem typeWord_dflt (v : Nat) : ∀ c ∈ typeWord v, isDflt c = true := by
+  unfold typeWord; split <;> decide
+
+theorem token_case (fl : Nat) (rest : B) (hf : followOK rest = true) :
+    nextToken (renderE (.caseD fl) ++ rest) = .ok (some ⟨tokCase, caseWord fl, renderE (.caseD fl)⟩) := by
+  simp only [renderE]
+  rw [nextToken_word [99,97,115,101,58] (caseWord fl) (caseWord fl) rest (by decide) (Or.inl ⟨rfl, caseWord_dflt fl⟩)
+    (by simp) (by simp) hf]
+  rw [setType_prefixed [99,97,115,101,58] tokCase (by decide)]
+  rfl
+
+theorem token_type (a v : Nat) (rest : B) (hf : followOK rest = true) :
+    nextToken (renderE (.typeD a v) ++ rest) = .ok (some ⟨tokType, typeWord v, renderE (.typeD a v)⟩) := by
+  simp only [renderE]
+  split
+  · rw [nextToken_word [116,121,112,101,58] (typeWord v) (typeWord v) rest (by decide) (Or.inl ⟨rfl, typeWord_dflt v⟩)
+      (by simp) (by simp) hf]
+    rw [setType_prefixed [116,121,112,101,58] tokType (by decide)]
+    rfl
+  · rw [nextToken_word [116,58] (typeWord v) (typeWord v) rest (by decide) (Or.inl ⟨rfl, typeWord_dflt v⟩)
+      (by simp) (by simp) hf]
+    rw [setType_prefixed [116,58] tokType (by decide)]
+    rfl
+
+theorem token_or (rest : B) (hf : followOK rest = true) :
+    nextToken ([111,114] ++ rest) = .ok (some ⟨tokOr, [111,114], [111,114]⟩) := by
+  have h := nextToken_word [] [111,114] [111,114] rest (by simp) (Or.inl ⟨rfl, by decide⟩) (by simp) (by simp) hf
+  simp only [List.nil_append] at h
+  rw [h]
+  have : setType ⟨tokText, [111,114], [111,114]⟩ = .ok ⟨tokOr, [111,114], [111,114]⟩ := by rfl
+  rw [this]; rfl
+
+theorem token_negate (s : B) : nextToken (45 :: s) = .ok (some ⟨tokNegate, [45], [45]⟩) := by
+  simp [nextToken, sliceTo, C07.bind_ok]
+
+theorem token_close (rest : B) : nextToken (41 :: rest) = .ok (some ⟨tokParenClose, [41], [41]⟩) := by
+  unfold nextToken
+  simp only [show (41 : Nat) ≠ 45 by decide, if_false]
+  have : ntLoop ((41 :: rest).length + 1) (41 :: rest) 0 [] = .ok (rest, [41], false) := by
+    unfold ntLoop; simp
+  rw [this]
+  simp only [C07.bind_ok, Bool.false_and, Bool.false_eq_true, if_false]
+  have h1 : subLen "nextToken:len(in)-len(left)" (41 :: rest) rest = .ok 1 := by simp [subLen]
+  have h2 : sliceTo "nextToken:in[:len(in)-len(left)]" (41 :: rest) 1 = .ok [41] := by simp [sliceTo]
+  rw [h1, C07.bind_ok, h2, C07.bind_ok]
+  have : setType ⟨tokText, [41], [41]⟩ = .ok ⟨tokParenClose, [41], [41]⟩ := by rfl
+  rw [this]; rfl
+
+/-- an opening parenthesis followed by a blank is the grouping token -/
+theorem token_open_pad (rest : B) : nextToken (40 :: 32 :: rest) = .ok (some ⟨tokParenOpen, [40], [40]⟩) := by
+  unfold nextToken
+  simp only [show (40 : Nat) ≠ 45 by decide, if_false]
+  have : ntLoop ((40 :: 32 :: rest).length + 1) (40 :: 32 :: rest) 0 [] = .ok (32 :: rest, [40], true) := by
+    simp only [List.length_cons]
+    unfold ntLoop
+    simp only [if_true]
+    unfold ntLoop
+    simp
+  rw [this]
+  simp only [C07.bind_ok, Bool.true_and, decide_true, if_true]
+  have h1 : sliceTo "nextToken:cur.Text[:1]" [40] 1 = .ok [40] := by simp [sliceTo]
+  have h2 : sliceTo "nextToken:in[:1]" (40 :: 32 :: rest) 1 = .ok [40] := by simp [sliceTo]
+  rw [h1, C07.bind_ok, h2, C07.bind_ok]
+  have : setType ⟨tokText, [40], [40]⟩ = .ok ⟨tokParenOpen, [40], [40]⟩ := by rfl
+  rw [this]; rfl
+
 end ZoektModel.C06
